@@ -25,7 +25,7 @@ import (
 func TestMain(m *testing.M) { stats.Main(m, "C13") }
 
 const ruleW = "rapid: format tables of 0-3 entries from {json,text,custom,\"\"} with generated values (empty allowed) x configured Format {unset,json,text,custom,missing} x harness writer {ok, fails, short write with nil error, short write with error} x 1-16 concurrent Process calls, for writer.Sink and FileSink (temp dir, /dev/null, /dev/stdout, /dev/stderr, un-creatable directory); oracle = per-call byte log of the harness writer / file contents: success => exactly the configured format's bytes, once, never overlapping another write; missing format or failing/short writer => error; non-trivial = >=2 formats in the table with a non-default sink format, or >=4 concurrent writers; distinct = case descriptor"
-const ruleC = "rapid: ChannelSink with capacity 0/1, pre-filled or not, a drainer receiving after never/0/5/60ms, timeout 1-40ms or 10s, context cancelled before/after 1-40ms/never, plus constructor arguments; oracle = nil <=> the identical *Event pointer was received exactly once, error => never received, error not before min(timeout, cancel) and not later than it + 2s; non-trivial = timeout and context deadline both finite and different, or delivery racing a deadline; distinct = case descriptor"
+const ruleC = "rapid: ChannelSink with capacity 0/1, pre-filled or not, a drainer receiving after never/0/5/60ms, timeout 1-40ms or 10s, context cancelled before/after 1-40ms/never or carrying its own deadline, or a detached context (parent deadline, never done), Process under a watchdog, plus constructor arguments; oracle = nil <=> the identical *Event pointer was received exactly once, error => never received, error not before min(timeout, cancel) and not later than it + 2s; non-trivial = timeout and context deadline both finite and different, or delivery racing a deadline; distinct = case descriptor"
 
 var formatNames = []string{eventlogger.JSONFormat, "text", "custom", ""}
 
@@ -342,6 +342,118 @@ func TestC13FileSink(t *testing.T) {
 	})
 }
 
+const ruleF = "rapid: histories of 2-12 steps on one live FileSink {write unique value, break: the log path becomes a symlink to /dev/full (the old file is kept aside), repair: the symlink is removed, Reopen, external rename of the log file}; oracle after every write, counting complete copies of the value over all regular files of the directory: success <=> exactly one copy, error => no copy; at the end every acknowledged value exactly once; non-trivial = a write that first failed on a stale handle and then met a repaired path, or a write through a handle whose file was renamed; distinct = step-kind sequence"
+
+// TestC13FileSinkFaults: the environment under a live FileSink changes between Process calls.
+func TestC13FileSinkFaults(t *testing.T) {
+	sec := stats.Sec("file_sink_faults", ruleF)
+	if _, err := os.Stat("/dev/full"); err != nil {
+		t.Skip("/dev/full not available")
+	}
+	root, err := os.MkdirTemp("", "verif-c13f-")
+	if err != nil {
+		t.Skip(err.Error())
+	}
+	defer os.RemoveAll(root)
+	caseNo := 0
+	rapid.Check(t, func(t *rapid.T) {
+		caseNo++
+		dir := filepath.Join(root, fmt.Sprintf("f%d", caseNo))
+		_ = os.MkdirAll(dir, 0o755)
+		defer os.RemoveAll(dir)
+		logPath := filepath.Join(dir, "out.log")
+		sink := &eventlogger.FileSink{Path: dir, FileName: "out.log", Format: rapid.SampledFrom([]string{"", "text"}).Draw(t, "format")}
+		steps := rapid.SliceOfN(rapid.SampledFrom([]string{"write", "write", "write", "break", "repair", "reopen", "rename"}), 2, 12).Draw(t, "steps")
+		aside := 0
+		broken, failedWhileBroken, staleThenRepaired, renamedHandle := false, false, false, false
+		var acked [][]byte
+		count := func(v []byte) int {
+			n := 0
+			ents, _ := os.ReadDir(dir)
+			for _, e := range ents {
+				if !e.Type().IsRegular() {
+					continue
+				}
+				b, _ := os.ReadFile(filepath.Join(dir, e.Name()))
+				n += bytes.Count(b, v)
+			}
+			return n
+		}
+		for i, st := range steps {
+			switch st {
+			case "break":
+				if broken {
+					continue
+				}
+				aside++
+				_ = os.Rename(logPath, filepath.Join(dir, fmt.Sprintf("aside-%d", aside)))
+				if os.Symlink("/dev/full", logPath) != nil {
+					t.Skip("cannot create symlink")
+				}
+				broken = true
+			case "repair":
+				if !broken {
+					continue
+				}
+				_ = os.Remove(logPath)
+				broken = false
+				if failedWhileBroken {
+					staleThenRepaired = true
+				}
+			case "rename":
+				if broken {
+					continue
+				}
+				aside++
+				if os.Rename(logPath, filepath.Join(dir, fmt.Sprintf("aside-%d", aside))) == nil {
+					renamedHandle = true
+				}
+			case "reopen":
+				_ = sink.Reopen()
+				failedWhileBroken = false
+			case "write":
+				v := []byte(fmt.Sprintf("<<case%d-step%d-%s>>\n", caseNo, i, strings.Repeat("x", rapid.IntRange(0, 40).Draw(t, fmt.Sprintf("pad%d", i)))))
+				_, perr := sink.Process(context.Background(), &eventlogger.Event{Type: "t", Formatted: map[string][]byte{effFormat(sink.Format): v}})
+				n := count(v)
+				desc := fmt.Sprintf("steps=%v (failing at step %d)", steps, i)
+				if perr == nil && n != 1 {
+					t.Fatalf("VIOLATION C13: FileSink reported success but the value is in its files %d time(s)\ncase: %s", n, desc)
+				}
+				if perr != nil && n != 0 {
+					t.Fatalf("VIOLATION C13: FileSink reported %q although the event's bytes were written completely (%d copy) - written and error at once\ncase: %s", perr, n, desc)
+				}
+				if perr == nil {
+					acked = append(acked, v)
+				} else if broken {
+					failedWhileBroken = true
+				}
+				if !broken {
+					failedWhileBroken = false
+				}
+			}
+		}
+		for _, v := range acked {
+			if n := count(v); n != 1 {
+				t.Fatalf("VIOLATION C13: acknowledged value %q is in the files %d time(s) at the end\ncase: steps=%v", v, n, steps)
+			}
+		}
+		var cl []string
+		if staleThenRepaired {
+			cl = append(cl, "stale_failing_handle_then_repaired_path")
+		}
+		if renamedHandle {
+			cl = append(cl, "write_through_renamed_file")
+		}
+		sec.Case(staleThenRepaired || renamedHandle, strings.Join(steps, " "), cl...)
+	})
+}
+
+// detachedCtx inherits Deadline and Value from its parent but is never done.
+type detachedCtx struct{ context.Context }
+
+func (detachedCtx) Done() <-chan struct{} { return nil }
+func (detachedCtx) Err() error            { return nil }
+
 func TestC13ChannelSink(t *testing.T) {
 	sec := stats.Sec("channel_sink", ruleC)
 	rapid.Check(t, func(t *rapid.T) {
@@ -359,7 +471,16 @@ func TestC13ChannelSink(t *testing.T) {
 		timeoutMs := rapid.SampledFrom([]int{1, 5, 20, 40, 10000}).Draw(t, "timeoutMs")
 		cancelMs := rapid.SampledFrom([]int{-2, -2, -1, 1, 10, 40}).Draw(t, "cancelAfterMs") // -2 never, -1 before
 		deadlineMs := rapid.SampledFrom([]int{0, 0, 0, 10, 4500}).Draw(t, "ctxDeadlineMs") // 0 = no deadline on the context
-		if timeoutMs == 10000 && drainMs < 0 && cancelMs == -2 && deadlineMs != 10 && !(capn == 1 && !prefill) {
+		// "detached": a hand-rolled context that keeps the parent's Deadline and values but is never done
+		// (the pre-Go-1.21 idiom for letting event delivery outlive the request)
+		detach := rapid.IntRange(0, 3).Draw(t, "detachedCtx") == 0
+		if detach {
+			cancelMs = -2
+			if timeoutMs == 10000 && drainMs < 0 && !(capn == 1 && !prefill) {
+				timeoutMs = 40
+			}
+		}
+		if timeoutMs == 10000 && drainMs < 0 && cancelMs == -2 && deadlineMs != 10 && !(capn == 1 && !prefill) && !detach {
 			cancelMs = 10 // nobody would ever take the event: do not sit out the 10 s timeout
 		}
 		ch := make(chan *eventlogger.Event, capn)
@@ -379,6 +500,9 @@ func TestC13ChannelSink(t *testing.T) {
 		}
 		ctx, cancel := context.WithCancel(parent)
 		defer cancel()
+		if detach {
+			ctx = detachedCtx{parent}
+		}
 		if cancelMs == -1 {
 			cancel()
 		} else if cancelMs > 0 {
@@ -437,13 +561,34 @@ func TestC13ChannelSink(t *testing.T) {
 			}
 		}()
 		start := time.Now()
-		out, perr := sink.Process(ctx, ev)
+		var out *eventlogger.Event
+		var perr error
+		returned := make(chan struct{})
+		go func() {
+			defer close(returned)
+			out, perr = sink.Process(ctx, ev)
+		}()
+		bound := time.Duration(timeoutMs) * time.Millisecond
+		select {
+		case <-returned:
+		case <-time.After(bound + 3*time.Second):
+			close(stopDrain)
+			<-drainDone
+			for len(ch) > 0 {
+				<-ch
+			}
+			select { // let the stuck call finish so that it does not leak into the next case
+			case <-ch:
+			case <-time.After(100 * time.Millisecond):
+			}
+			t.Fatalf("VIOLATION C13: ChannelSink.Process still blocked %v after its timeout of %dms elapsed\ncase: cap=%d prefilled=%v drainAfter=%dms timeout=%dms cancel=%dms ctxDeadline=%dms detached=%v", 3*time.Second, timeoutMs, capn, prefill, drainMs, timeoutMs, cancelMs, deadlineMs, detach)
+		}
 		elapsed := time.Since(start)
 		// keep listening a little longer: an event must not arrive after an error was reported
 		time.Sleep(30 * time.Millisecond)
 		close(stopDrain)
 		<-drainDone
-		desc := fmt.Sprintf("cap=%d prefilled=%v drainAfter=%dms timeout=%dms cancel=%dms ctxDeadline=%dms", capn, prefill, drainMs, timeoutMs, cancelMs, deadlineMs)
+		desc := fmt.Sprintf("cap=%d prefilled=%v drainAfter=%dms timeout=%dms cancel=%dms ctxDeadline=%dms detached=%v", capn, prefill, drainMs, timeoutMs, cancelMs, deadlineMs, detach)
 		if out != nil {
 			t.Fatalf("VIOLATION C13: ChannelSink returned an event\ncase: %s", desc)
 		}
@@ -462,7 +607,7 @@ func TestC13ChannelSink(t *testing.T) {
 		} else if cancelMs > 0 && time.Duration(cancelMs)*time.Millisecond < deadline {
 			deadline = time.Duration(cancelMs) * time.Millisecond
 		}
-		if deadlineMs > 0 && cancelMs != -1 && time.Duration(deadlineMs)*time.Millisecond < deadline {
+		if deadlineMs > 0 && cancelMs != -1 && !detach && time.Duration(deadlineMs)*time.Millisecond < deadline {
 			deadline = time.Duration(deadlineMs) * time.Millisecond
 		}
 		if elapsed > deadline+2*time.Second {
@@ -483,6 +628,12 @@ func TestC13ChannelSink(t *testing.T) {
 			t.Fatalf("VIOLATION C13: ChannelSink failed (%v) although the channel could take the event and the context was never cancelled\ncase: %s", perr, desc)
 		}
 		cl := []string{}
+		if detach {
+			cl = append(cl, "detached_context")
+			if deadlineMs > 0 {
+				cl = append(cl, "detached_context_with_parent_deadline")
+			}
+		}
 		if perr == nil {
 			cl = append(cl, "delivered")
 		} else if isCtxErr {
